@@ -468,14 +468,15 @@ func main() {
 	log.SetOutput(io.Discard)
 	seed := flag.Uint64("seed", 1, "seed")
 	n := flag.Int("n", 50, "number of scripts")
-	mix := flag.String("mix", "c01", "event mix: c01 c02 c04 c05")
+	mix := flag.String("mix", "c01", "event mix: c01 c02 c04 c05, or a comma-separated list used round robin")
 	nev := flag.Int("events", 30, "events per script")
 	flag.Parse()
 	w := bufio.NewWriter(os.Stdout)
 	defer w.Flush()
 	kinds := map[string]int{}
+	mixes := strings.Split(*mix, ",")
 	for i := 0; i < *n; i++ {
-		line, err := runScript(*seed, i, *mix, *nev, kinds)
+		line, err := runScript(*seed, i, mixes[i%len(mixes)], *nev, kinds)
 		if err != nil {
 			fmt.Fprintf(w, "# setup-failed script %d: %v\n", i, err)
 			continue
